@@ -38,7 +38,7 @@ def make_class():
 
 def show(T):
     return 'N[%s] C[%s]' % (','.join('%s>%d' % (hx(k), v.oid) for k, v in list(T._instanceNames.items())),
-                            ','.join('%d>%d' % (k, v.oid) for k, v in list(T._instanceCanon.items())))
+                            ','.join('%s>%d' % (k if type(k) is int and k else 'FALSY:%r' % (k,), v.oid) for k, v in list(T._instanceCanon.items())))
 
 
 def random_history(rng, n):
